@@ -24,6 +24,7 @@
 // SOLVEK k kind tol maxit <ASM body>   as SOLVE, for the factors 2^0 and 2^k only (std::ldexp on every weight and strength; "num e" may
 //   have any e): the two result vectors as float bit patterns, separated by " | "   (range of k in which the conjugate gradient
 //   is scale-covariant: design/C17.md, "What the theorem does not give")
+// PLACEAT ox oy <PLACE body>   the same with the rows and the cells translated by (ox, oy) (finding F30: no fixed cell, offsets up to 2^22)
 // PLACE netmodel seed maxsteps W nrows rowh ncells {w fixed x y}* nnets { np w4 {cell xo yo}* }*
 //   result: per factor in 1 2 0.5 2.5 7 (weights and penalty.initialValue times the factor):
 //     "T<s> x y x y ... ;" per callback (s = L lower bound, U upper bound, P penalty update) and "TF ..." at the end; then " # W "
@@ -254,13 +255,14 @@ static void setPlaceParam(ColoquinteParameters &p, int id, double v) {
 }
 static const float kPlaceCbFactors[3] = {1.0f, 4.0f, 0.125f};
 struct CbAct { int cb, kind; uint64_t seed; };
+static int gOx = 0, gOy = 0;   // PLACEAT: translation of rows and cells
 static void runPlace(Rd &r, bool withActions = false) {
   std::vector<CbAct> acts;
   if (withActions) { int na = (int)r.nx(); for (int i = 0; i < na; ++i) { CbAct a; a.cb = (int)r.nx(); a.kind = (int)r.nx(); a.seed = (uint64_t)r.nx(); acts.push_back(a); } }
   int model = (int)r.nx(); int seed = (int)r.nx(); int maxsteps = (int)r.nx();
   int W = (int)r.nx(), nrows = (int)r.nx(), rowh = (int)r.nx(); int nc = (int)r.nx();
   std::vector<int> cw(nc), cx(nc), cy(nc); std::vector<bool> fx(nc);
-  for (int i = 0; i < nc; ++i) { cw[i] = (int)r.nx(); fx[i] = r.nx() != 0; cx[i] = (int)r.nx(); cy[i] = (int)r.nx(); }
+  for (int i = 0; i < nc; ++i) { cw[i] = (int)r.nx(); fx[i] = r.nx() != 0; cx[i] = (int)r.nx() + gOx; cy[i] = (int)r.nx() + gOy; }
   int nn = (int)r.nx();
   struct N { std::vector<int> c, xo, yo; float w; }; std::vector<N> nets;
   for (int i = 0; i < nn; ++i) { N n; int np = (int)r.nx(); n.w = (float)r.nx() / 4.0f; for (int j = 0; j < np; ++j) { n.c.push_back((int)r.nx()); n.xo.push_back((int)r.nx()); n.yo.push_back((int)r.nx()); } nets.push_back(n); }
@@ -271,7 +273,7 @@ static void runPlace(Rd &r, bool withActions = false) {
     float f = withActions ? kPlaceCbFactors[k] : kPlaceFactors[k];
     Circuit c(nc);
     c.setCellWidth(cw); c.setCellHeight(std::vector<int>(nc, rowh)); c.setCellX(cx); c.setCellY(cy); c.setCellIsFixed(fx);
-    std::vector<Row> rows; for (int i = 0; i < nrows; ++i) rows.emplace_back(0, W, i * rowh, (i + 1) * rowh, i % 2 ? CellOrientation::FS : CellOrientation::N);
+    std::vector<Row> rows; for (int i = 0; i < nrows; ++i) rows.emplace_back(gOx, gOx + W, gOy + i * rowh, gOy + (i + 1) * rowh, i % 2 ? CellOrientation::FS : CellOrientation::N);
     c.setRows(rows);
     for (auto &n : nets) c.addNet(n.c, n.xo, n.yo, n.w * f);
     if (k == 0) {
@@ -521,7 +523,7 @@ static std::string genPlaceP(SplitMix &g, int tolZeroPct = 50, int minSteps = 1)
 int main(int argc, char **argv) {
   std::string mode = argc > 1 ? argv[1] : "run";
   if (mode == "gen") {
-    std::string what = argv[2]; SplitMix g((uint64_t)atoll(argv[3]) * 7919 + (what == "asm" ? 1 : what == "solve" ? 2 : what == "fasm" ? 4 : what == "coin" ? 5 : what == "fcoin" ? 6 : what == "scoin" ? 7 : what == "placecb" ? 8 : 3)); int count = atoi(argv[4]);
+    std::string what = argv[2]; SplitMix g((uint64_t)atoll(argv[3]) * 7919 + (what == "asm" ? 1 : what == "solve" ? 2 : what == "fasm" ? 4 : what == "coin" ? 5 : what == "fcoin" ? 6 : what == "scoin" ? 7 : what == "placecb" ? 8 : what == "far" ? 9 : what == "placeat" ? 10 : 3)); int count = atoi(argv[4]);
     if (what == "coin") {
       for (int i = 0; i < count; ++i) { int m = (int)g.uni(1, 4); bool dy = g.coin(60); printf("ASM %s\n", genCoin(g, dy, m, g.coin(35)).c_str()); }
     } else if (what == "fcoin") {
@@ -608,6 +610,43 @@ int main(int argc, char **argv) {
         }
         printf("%s %s\n", a.str().c_str(), body.c_str());
       }
+    } else if (what == "far" || what == "placeat") {
+      // finding F30: circuits WITHOUT any fixed pin translated to offsets up to 2^22, all four net models.
+      //   far: SOLVE kind 2 / 4 (penalised): lower-bound placement at the origin or near the targets, targets around the offset
+      //   placeat: "PLACEAT ox oy <PLACE body>": the PLACE circuit (no fixed cell) with rows and cells translated by (ox, oy)
+      static const long long offs[] = {0, 1LL << 16, 1LL << 20, 1LL << 21, 3LL << 20, (1LL << 22) - 304};
+      for (int i = 0; i < count; ++i) {
+        long long off = offs[g.uni(0, 5)];
+        std::ostringstream s;
+        if (what == "far") {
+          int kind = g.coin(70) ? 2 : 4, m = kind == 4 ? 1 : (int)g.uni(1, 4), nc = (int)g.uni(2, 5), nn = (int)g.uni(1, 4);
+          s << "SOLVE " << kind << " 8589935 43 " << g.uni(100, 1000) << " " << m << " " << nc << " ";
+          if (g.coin(50)) s << "2 0"; else s << qstr(g.uni(410, 40960), 12);
+          s << " " << nn;
+          for (int n = 0; n < nn; ++n) {
+            int np = (int)g.uni(2, 4); s << " " << np << " " << qstr(g.uni(4, 48), 2);
+            for (int j = 0; j < np; ++j) s << " " << g.uni(0, nc - 1) << " " << qstr(g.uni(-8, 8), 0);
+            s << " 0";
+          }
+          bool origin = g.coin(60);                                // the first lower bound of a circuit without fixed pins is at 0
+          s << " " << nc; for (int c = 0; c < nc; ++c) s << " " << (origin ? 0 : off + g.uni(0, 300)) << " 0";
+          s << " 1 " << (g.coin(50) ? "40 0" : "4 0");
+          for (int c = 0; c < nc; ++c) s << " " << off + g.uni(0, 300) << " 0 " << qstr(g.uni(1, 16), 6);
+        } else {
+          int nrows = (int)g.uni(1, 4), rowh = 8, nc = (int)g.uni(2, 12);
+          std::vector<int> w(nc); long long tot = 0;
+          for (int c = 0; c < nc; ++c) { w[c] = (int)g.uni(2, 10); tot += w[c]; }
+          int W = (int)std::max<long long>(16, tot * (long long)g.uni(14, 30) / 10 / nrows);
+          s << "PLACEAT " << off << " " << (g.coin(50) ? off : 0) << " " << g.uni(1, 4) << " " << g.uni(1, 1000) << " " << g.uni(3, 8) << " " << W << " " << nrows << " " << rowh << " " << nc;
+          for (int c = 0; c < nc; ++c) s << " " << w[c] << " 0 " << g.uni(0, std::max(0, W - w[c])) << " " << g.uni(0, nrows - 1) * rowh;
+          int nn = (int)g.uni(1, 2 * nc); s << " " << nn;
+          for (int n = 0; n < nn; ++n) {
+            int np = (int)g.uni(2, 4); s << " " << np << " " << g.uni(1, 12);
+            for (int j = 0; j < np; ++j) { int c = (int)g.uni(0, nc - 1); s << " " << c << " " << g.uni(0, w[c]) << " " << g.uni(0, rowh); }
+          }
+        }
+        printf("%s\n", s.str().c_str());
+      }
     } else {
       for (int i = 0; i < count; ++i) {
         int nrows = (int)g.uni(2, 5), rowh = 8, nc = (int)g.uni(4, 24);
@@ -640,6 +679,7 @@ int main(int argc, char **argv) {
       else if (tag == "FASM") runFasm(r);
       else if (tag == "SOLVEK") runSolveK(r);
       else if (tag == "PLACE") runPlace(r);
+      else if (tag == "PLACEAT") { gOx = (int)r.nx(); gOy = (int)r.nx(); runPlace(r); gOx = gOy = 0; }
       else if (tag == "PLACECB") runPlace(r, true);
       else printf("ERR unknown tag\n");
     } catch (std::exception &ex) { printf("THROW %s\n", ex.what()); }
